@@ -32,7 +32,12 @@ CHECKS = {
 # ---- per-property registry fragments: bin/checks.d/*.py, each may define HARNESSES / CHECKS dicts
 import glob as _glob, os as _os
 for _f in sorted(_glob.glob(_os.path.join(_os.path.dirname(_os.path.abspath(__file__)), "checks.d", "*.py"))):
-    _ns = {"NOAC": NOAC}
-    exec(compile(open(_f).read(), _f, "exec"), _ns)
+    _ns = {"NOAC": NOAC, "__file__": _f}
+    try:
+        exec(compile(open(_f).read(), _f, "exec"), _ns)
+    except Exception as _e:   # a broken fragment must not take the other checks down
+        import sys as _sys
+        print("[vchecks] fragment %s failed to load: %r" % (_f, _e), file=_sys.stderr)
+        continue
     HARNESSES.update(_ns.get("HARNESSES", {}))
     CHECKS.update(_ns.get("CHECKS", {}))
